@@ -118,7 +118,13 @@ def gen_variant(r, trig):
                 if r.chance(0.5):
                     host, other = other, host
                 host_line = hline(r, 'Host', host)
-            target = 'http://' + other + r.pick(['', ':80']) + target
+            if r.chance(0.3):
+                # both sides carry the same explicit port: only the names differ
+                port = r.pick([':80', ':8080', ':443'])
+                target = 'http://' + other + port + target
+                host_line = hline(r, 'Host', host + port)
+            else:
+                target = 'http://' + other + r.pick(['', ':80']) + target
         else:
             target = 'http://' + host + ':8080' + target
             host_line = hline(r, 'Host', host + ':81')
